@@ -198,6 +198,8 @@ func runSeqScenario(sp *subjectSpec, parts [][]int, fs []fault) (o seqOutcome) {
 		case err == nil:
 			// Items are always judged by the final comparison. (A combinator that first hands out
 			// what it holds and reports the failure on the following call is within the statement.)
+		case err == stream.End && fatalReported(e, err):
+			// a callback failed with the bare End value: this End is the report of E
 		case err == stream.End:
 			if e.fatalFired.Load() {
 				o.v = &viol{"error-swallowed", fmt.Sprintf("consumer call %d returned End although %q had been returned to the combinator and was never reported", a, e.firstFatal())}
@@ -222,6 +224,10 @@ func runSeqScenario(sp *subjectSpec, parts [][]int, fs []fault) (o seqOutcome) {
 			o.expNoWait++
 		}
 		o.got = append(o.got, evs...)
+		if err == stream.End && fatalReported(e, err) {
+			o.terminal = "fatal"
+			break
+		}
 		if err == stream.End {
 			o.got = append(o.got, evEnd)
 			o.terminal = "end"
@@ -361,7 +367,7 @@ func singleFaults(sp *subjectSpec, e *env, n int, attempts int) []fault {
 // at-end position of every source and every callback stage.
 func errValueFaults(sp *subjectSpec, e *env, n int) []fault {
 	var out []fault
-	for ek := 1; ek < nFatalErrKinds; ek++ {
+	for ek := 1; ek < ekBareEnd; ek++ {
 		for j, si := range e.srcs {
 			for _, p := range fewPositions(si.nItems, true) {
 				out = append(out, mkFatal(fkFatalSrc, j, p, ek))
@@ -370,6 +376,20 @@ func errValueFaults(sp *subjectSpec, e *env, n int) []fault {
 		for _, k := range sp.cbStages() {
 			for _, p := range fewPositions(n, false) {
 				out = append(out, mkFatal(fkFatalCb, k, p, ek))
+			}
+		}
+	}
+	// A callback returning the bare stream.End value, where the owner of the callback is consumed
+	// directly, item by item, or is Reduce itself (see ekBareEnd).
+	if sp.unique {
+		switch {
+		case sp.term.kind == "reduce":
+			for p := 0; p < n; p++ {
+				out = append(out, mkFatal(fkFatalCb, len(sp.stages), p, ekBareEnd))
+			}
+		case sp.term.kind == "ints" && len(sp.stages) > 0 && sp.stages[len(sp.stages)-1].hasCb():
+			for p := 0; p < n; p++ {
+				out = append(out, mkFatal(fkFatalCb, len(sp.stages)-1, p, ekBareEnd))
 			}
 		}
 	}
@@ -601,7 +621,7 @@ func sequential(r *vkit.Report) {
 		}
 		vary := func(f fault) fault {
 			if f.Kind.fatal() && rnd.Intn(4) == 0 {
-				return mkFatal(f.Kind, f.Target, f.Pos, 1+rnd.Intn(nFatalErrKinds-1))
+				return mkFatal(f.Kind, f.Target, f.Pos, 1+rnd.Intn(ekBareEnd-1))
 			}
 			return f
 		}
